@@ -27,11 +27,11 @@ static const int KEYS3[3] = {60, 62, 64};
 static void build_bank() {
     pl::BankSpec m; m.percussive = false;
     pl::InsSpec a; a.id = 1; a.kon_ms = 500; a.koff_ms = 100; m.ins[0] = a;
-    pl::InsSpec b; b.id = 2; b.kon_ms = 40000; b.koff_ms = 200; m.ins[1] = b;        // "fixed sustain"
+    pl::InsSpec b; b.id = 2; b.kon_ms = 40000; b.koff_ms = 200; b.note_offset = 12; m.ins[1] = b;        // "fixed sustain", transposed (a note offset must not turn the instrument into a two-voice one)
     // program 2 stays blank
     pl::BankSpec p; p.percussive = true;
     pl::InsSpec d1; d1.id = 3; d1.kon_ms = 100; d1.koff_ms = 50; d1.drum_key = 40; p.ins[60] = d1;
-    pl::InsSpec d2; d2.id = 4; d2.kon_ms = 2000; d2.koff_ms = 300; d2.drum_key = 45; p.ins[62] = d2;
+    pl::InsSpec d2; d2.id = 4; d2.kon_ms = 2000; d2.koff_ms = 300; d2.drum_key = 45; d2.note_offset = -12; p.ins[62] = d2;
     // key 64 stays blank
     for(auto *bk : {&m, &p}) for(auto &e : bk->ins) e.second.koff_ms = (uint16_t)std::min(65535, e.second.koff_ms * g_koff_scale);
     g_bank = pl::make_wopn({m, p});
